@@ -156,6 +156,22 @@ pub fn eval_expect(expect: &Expect, rep: &RunReport, session: usize, stmt: usize
             _ => None,
         },
         Expect::Custom { check, data } => {
+            if check == "describe" {
+                // data = [(name, type)] from DESCRIBE; compare with what the
+                // statement announces and produces
+                let want: Vec<(String, String)> = serde_json::from_str(data).unwrap_or_default();
+                return match o {
+                    Outcome::Rows(t) => {
+                        let got: Vec<(String, String)> = t.names.iter().cloned().zip(t.types.iter().cloned()).collect();
+                        if got != want {
+                            Some(("describe-mismatch".into(), format!("DESCRIBE says {want:?}, the result announces {got:?}")))
+                        } else {
+                            t.type_mismatch.as_ref().map(|m| ("schema-mismatch".to_string(), m.clone()))
+                        }
+                    }
+                    _ => None,
+                };
+            }
             if check == "count" {
                 return match o {
                     Outcome::Rows(t) => {
